@@ -5,6 +5,7 @@ import YatimlModel.Gen.LoaderResolvers
 import YatimlModel.Gen.PyyamlResolvers
 import YatimlModel.Gen.Tags
 import YatimlModel.Spec.Yaml12
+import YatimlModel.Lemmas.RegexLang
 /-!
 # C09 — plain scalars are typed by YAML 1.2 rules for booleans and floats
 
@@ -83,6 +84,20 @@ theorem C09_float_iff_plain (s : List Nat) (h : NoLF s) :
   have := Prob.check_sound (nlProb specFloat) _ nlFloat_ok s
   simp only [nlProb, List.map_cons, List.map_nil, rmatch_noNL s h] at this
   simpa using this
+
+/-- **C09 in terms of languages.**  For every plain scalar `s` (no line feed): the loader resolves `s`
+to bool / float exactly when `s` is in the *language* of the YAML 1.2 core-schema expression
+(`Lang`, the usual denotational semantics of regular expressions; `rmatch_iff_lang` shows the
+derivative matcher decides it). -/
+theorem C09_bool_iff_lang (s : List Nat) (h : NoLF s) :
+    resolve loaderTable s = RTag.bool ↔ Lang specBool s := by
+  rw [← rmatch_iff_lang, ← C09_bool_iff_plain s h]
+  simp
+
+theorem C09_float_iff_lang (s : List Nat) (h : NoLF s) :
+    resolve loaderTable s = RTag.float ↔ Lang specFloat s := by
+  rw [← rmatch_iff_lang, ← C09_float_iff_plain s h]
+  simp
 
 /-! ### what resolves also constructs -/
 
